@@ -42,8 +42,9 @@ def _get_docformat(obj: model.Documentable) -> str:
     # of this behavior.
     if obj.system.options.docformat == 'plaintext':
         return 'plaintext'
-    # the docstring should be parsed using the format of the module it was inherited from
-    docformat = obj.module.docformat or obj.system.options.docformat
+    # the docstring should be parsed using the format of the module it was inherited from:
+    # the module it is written in, which is not the module a re-exported object lives in now.
+    docformat = (obj.definingMod or obj.module).docformat or obj.system.options.docformat
     return docformat
 
 @attr.s(auto_attribs=True)
